@@ -6,7 +6,13 @@ CONSTANTS
   MaxFetches = 2
   MaxOpen = 2
   Overlap = TRUE
+  Kinds = {"direct"}
+  Ours = {"V1", "V2"}
+  LookErrs = {}
+  MaxRefresh = 0
+  AuctionMiss = "fail"
+  BidAccount = "lookup"
   Design = "memochecked"
-INVARIANTS TypeOK UsesInForce SequentialRight
+INVARIANTS TypeOK UsesInForce SequentialRight CallersAgree MissOnly
 CONSTRAINT FetchBound
 CHECK_DEADLOCK FALSE
